@@ -50,7 +50,8 @@ import (
 
 const c17StubScript = `#!/bin/sh
 # recording stub for "git credential <sub>": stores argv and stdin verbatim under $C17_REC.
-[ "$1" = credential ] || exit 128
+# (scenario provenance: the configuration loader's own git commands go to the real git named by $C17_REALGIT)
+[ "$1" = credential ] || { [ -n "$C17_REALGIT" ] && exec "$C17_REALGIT" "$@"; exit 128; }
 d="$C17_REC"
 set -C
 i=0
@@ -79,7 +80,12 @@ int main(int argc, char **argv) {
   const char *d = getenv("C17_REC");
   int i, fd, in;
   ssize_t n;
-  if (argc < 2 || strcmp(argv[1], "credential") != 0) return 128;
+  if (argc < 2 || strcmp(argv[1], "credential") != 0) {
+    /* scenario provenance: the configuration loader's own git commands go to the real git named by $C17_REALGIT */
+    const char *rg = getenv("C17_REALGIT");
+    if (rg && *rg) { execv(rg, argv); return 127; }
+    return 128;
+  }
   if (!d) return 71;
   for (i = 0;; i++) {
     snprintf(path, sizeof path, "%s/r%d.argv", d, i);
@@ -194,7 +200,10 @@ type c17Obs struct {
 	// Violations of the CR clauses that arise exactly under that condition get this root-cause fingerprint.
 	scopedIgnored bool
 	fpSuffix      string // appended to fingerprints (sequence scenario: position in the sequence and what preceded)
-	caseKey       string // flow scenario: identity of the case (maps contain the worker's ephemeral port, so they cannot serve as keys)
+	// provenance scenario: the source (class) holding credential.protectProtocol=false resp. =true; a CR-clause violation is
+	// fingerprinted by the source whose value git-lfs followed although Git does not
+	provFalse, provTrue string
+	caseKey             string // flow scenario: identity of the case (maps contain the worker's ephemeral port, so they cannot serve as keys)
 }
 
 func c17CopyCreds(in creds.Creds) creds.Creds {
@@ -301,6 +310,10 @@ func (o *c17Obs) viol(fp, msg string, detail map[string]interface{}) {
 		fp = "C17:url-scoped-protectProtocol-ignored:control-byte-in-url-path:CR-reached-helper"
 	} else if o.scopedIgnored && fp == "C17:clean-pairs-not-delivered:CR" {
 		fp = "C17:url-scoped-protectProtocol-ignored:control-byte-in-url-path:CR-refused-although-disabled"
+	} else if o.provFalse != "" && strings.HasPrefix(fp, "C17:refused-value-reached-helper:CR:") {
+		fp = "C17:provenance:" + o.provFalse + ":CR-reached-helper"
+	} else if o.provTrue != "" && fp == "C17:clean-pairs-not-delivered:CR" {
+		fp = "C17:provenance:" + o.provTrue + ":CR-refused-although-disabled"
 	} else {
 		fp += o.fpSuffix
 	}
@@ -1389,7 +1402,7 @@ var c17Parts = []struct {
 	name string
 	run  vx.RunFunc
 }{{"direct", c17Sequential(c17RunDirect)}, {"url", c17Sequential(c17RunURL)}, {"flow", c17Sequential(c17RunFlow)}, {"sequence", c17Sequential(c17RunSeq)},
-	{"concurrent", c17RunConcurrent}}
+	{"concurrent", c17RunConcurrent}, {"provenance", c17Sequential(c17RunProvenance)}}
 
 // c17Sequential executes one case as the only logical thread of a controlled execution.
 func c17Sequential(run vx.RunFunc) vx.RunFunc {
@@ -1640,6 +1653,9 @@ func TestVerifC17(t *testing.T) {
 		"stratum A: value pairs (clean, CR in username), (CR, clean), (CR, CR), every schedule with <= 2 (thorough 3) deviations from the deterministic default schedule (delay bounding: any switch away from the running / lowest-numbered enabled thread costs 1); " +
 		"stratum B: every other pair over {clean, CR / LF / NUL in username, CR in path, CR in password} in which at least one thread carries clean or CR-in-username (17 pairs, (clean, clean) among them), plus {clean, CR in username}^2 with a context wwwauth[] list {clean, CR in its 2nd entry}; <= 1 (thorough 2) deviations; " +
 		"stratum C (thorough): three threads = the pair ({approve, fill}^2, values (clean, clean), (CR, clean), (clean, CR)) plus a third thread (fill, CR in username) on thread 0's URL or on a never-configured host, <= 2 deviations; every thread's call is judged by the same per-call oracle under the configuration applying to ITS url. " +
+		"provenance: the configuration is read by the REAL loader (config.NewIn on a fresh throw-away repository, hermetic HOME / XDG_CONFIG_HOME / GIT_CONFIG_GLOBAL / GIT_CONFIG_NOSYSTEM; the recording stand-in forwards every non-credential git command to the real git): key form {credential.protectProtocol, credential.https://lfs.example.com.protectProtocol} x SOURCE {Git local config, global config, GIT_CONFIG_COUNT environment, file included from the local config, .lfsconfig in the work tree, .lfsconfig only in the index, .lfsconfig only in HEAD} x value {false, true} " +
+		"x for .lfsconfig the line position {alone, after lfs.<url>.access, after remote.origin.lfsurl, after lfs.extension.foo.priority, before lfs.<url>.access} x second source with the OPPOSITE value {none, each other Git source, .lfsconfig in the work tree after an access key (only when the first source is a Git source)} x its key form {plain, URL-scoped} x operation {approve, fill, reject}; inside each case 10 helper calls (fresh helper context each, same loaded configuration): {CR, LF, NUL} in the middle (thorough: start, middle, end) of the slot {username, path (both percent-encoded in the URL given to GetCredentialHelper, credential.useHttpPath=true in the local config), host (set on the derived map)} plus a plain byte; " +
+		"reference for 'protection enabled' = what the real git answers in that repository and environment to `git config --type=bool --get-urlmatch credential.protectProtocol https://lfs.example.com/org/repo.git` (unset => enabled); .lfsconfig has no say. " +
 		"distinct_nontrivial = distinct (operation, protection, supplied map) tuples whose values contain at least one control / non-ASCII byte and for which a helper call was made and judged (flow: distinct (protection, mode, byte, position, call number) with such a map, because those maps contain an ephemeral port; sequence (every order of the GET and USE steps of two exchanges on one context in which each GET precedes its USE): distinct (world, cache, exchange sequence, call number) with such a map; concurrent: distinct (world, context list, per-thread url/operation/value, thread) with such a map, whatever the schedule); plain-ASCII cases only count as evaluations"
 	c.Assumptions = []string{
 		"the `git` found first on PATH is a recording stub; what `git credential` itself does with its input is outside the property",
@@ -1649,6 +1665,7 @@ func TestVerifC17(t *testing.T) {
 		"scenarios direct/url use a fresh helper context per case; scenario sequence shares one context across 2-3 exchanges; longer sequences are not explored",
 		"sequence: when the context's credential cache may hold an entry for the exchange's protocol//host//path (an earlier approve, no later reject), git-lfs may answer from the cache without running `git credential`: then delivery is not demanded and a missing error is not a violation, but a value that must be refused must still never reach the helper",
 		"concurrent scenario: the scheduler controls the Lock/Unlock operations of package creds (rewritten at check time); plain memory accesses between two such operations are atomic for it. A stub invocation is attributed to the thread whose marker (the fixed head of its username) it carries, else to every thread during whose call it started. When another thread approves the same protocol//host//path the credential cache may answer a call: delivery is then not demanded",
+		"provenance scenario: whether protection is enabled for a URL is what Git itself reports for the repository (`git config --type=bool --get-urlmatch credential.protectProtocol <url>` run by the harness with the real git under the case's environment), default enabled; a repository's .lfsconfig (work tree, index or HEAD) is not Git's configuration and credential.* is not among the keys git-lfs documents for it (git-lfs-config(5): only lfs.url, lfs.pushurl, remote.<name>.lfsurl, lfs.<url>.access, lfs.fetchinclude/-exclude, ... are read from it), so it has no influence on the reference; the OS environment handed to the helper context is empty (no askpass program), the Git environment is the loader's",
 		"flow scenario: Client.Credentials is a pass-through recorder that forwards to the production helper chain obtained from the client's own credential context",
 	}
 	c.Bounds["palette_sequences"] = len(c17Palette)
@@ -1657,6 +1674,10 @@ func TestVerifC17(t *testing.T) {
 	c.Bounds["protect_configs"] = len(c17PPs)
 	c.Bounds["flow_modes"] = len(c17FlowModes)
 	c.Bounds["all_bytes_full_product"] = c.Thorough()
+	c.Bounds["provenance_sources"] = len(c17ProvSources)
+	c.Bounds["provenance_lfsconfig_line_positions"] = len(c17ProvPositions)
+	c.Bounds["provenance_second_sources"] = len(c17ProvSeconds) - 1
+	c.Bounds["provenance_byte_positions_per_slot"] = map[bool]int{false: 1, true: 3}[c.Thorough()]
 	{
 		budget, cost := c17CBound()
 		c.Bounds["concurrent_threads"] = map[bool]int{false: 2, true: 3}[c.Thorough()]
@@ -1714,7 +1735,7 @@ func TestVerifC17(t *testing.T) {
 	var parts []vx.Part
 	counters := map[string]int64{}
 	only := os.Getenv("VERIF_ONLY")
-	order := []int{4, 0, 1, 2, 3}
+	order := []int{4, 5, 0, 1, 2, 3}
 	for _, pi := range order {
 		p := c17Parts[pi]
 		if only != "" && only != p.name {
